@@ -133,11 +133,12 @@ func isBool(t types.Type) bool {
 }
 
 func typeKey(t types.Type) string {
-	return types.TypeString(t, func(p *types.Package) string { return p.Name() })
+	return types.TypeString(types.Unalias(t), func(p *types.Package) string { return p.Name() })
 }
 
 // sortOf maps a Go type to an SMT sort, declaring datatypes as needed.
 func (c *ctx) sortOf(t types.Type) string {
+	t = types.Unalias(t)
 	key := typeKey(t)
 	if s, ok := c.sorts[key]; ok {
 		return s
@@ -148,7 +149,7 @@ func (c *ctx) sortOf(t types.Type) string {
 }
 
 func isTimeType(t types.Type) bool {
-	n, ok := t.(*types.Named)
+	n, ok := types.Unalias(t).(*types.Named)
 	return ok && n.Obj().Pkg() != nil && n.Obj().Pkg().Path() == "time" && n.Obj().Name() == "Time"
 }
 
